@@ -35,8 +35,18 @@ for p in sorted(ready):
     r = json.load(open(f'{V}/registry/{p}.json'))
     rows.append(f"| {p} | {r.get('level')} | {len(r.get('theorems', []))} | {esc(short(r.get('what_is_proved',''), 600))} |")
 claims = '\n'.join(rows)
+# round 3: the paragraph each family's builder wrote for this section (notes/reports/round3_<family>.md)
+r3 = []
+for f in sorted(glob.glob(f'{V}/notes/reports/round3_*.md')):
+    fam = os.path.basename(f)[len('round3_'):-3]
+    t = open(f).read()
+    m = re.search(r'^##[^\n]*Paragraph for DESIGN\.md[^\n]*\n(.*?)(?=^## |\Z)', t, re.S | re.M)
+    if not m: continue
+    body = '\n'.join(l[2:] if l.startswith('> ') else (l[1:] if l.startswith('>') else l) for l in m.group(1).strip().splitlines())
+    r3.append(f'**Family `{fam}`** (full report: `notes/reports/round3_{fam}.md`)\n\n{body}\n')
+round3 = '\n'.join(r3)
 s = open(f'{V}/DESIGN.md').read()
-for name, body in (('findings', findings), ('seeded', seeded), ('claims', claims)):
+for name, body in (('findings', findings), ('seeded', seeded), ('claims', claims), ('round3', round3)):
     pat = re.compile(rf'(<!-- BEGIN:{name} -->\n).*?(<!-- END:{name} -->)', re.S)
     if not pat.search(s): print('marker missing:', name); continue
     s = pat.sub(lambda m: m.group(1) + body + '\n' + m.group(2), s)
